@@ -116,6 +116,6 @@ SUBS = [
 
 MANIFEST = {
     "technique": "property-based round-trip testing: Hypothesis model generator for the JSON fragment, n write/read cycles, oracle = the generating spec (tree, flags, typed attribute values, named constraint trees) plus byte/observation idempotence",
-    "level_text": "Generated models with arbitrary Unicode names and JSON attribute values are written and read 2-4 times; cycle 1 is compared with the spec, later cycles with the previous one byte for byte, and parse_json with the file reader. Sampling only.",
+    "level_text": "Generated models with arbitrary Unicode names and JSON attribute values are written and read 2-4 times; cycle 1 is compared with the spec, later cycles with the previous one byte for byte, and parse_json with the file reader. Sampling only. Also: models of 60-120 features with up to 120 constraints, wide groups, shared-node constraint trees, record-shaped and escape-like attribute values, and the same-path decoys / relative paths / other file system of C01. A sample of every sub-check additionally runs in a `python -OO` child with the root logger at DEBUG.",
     "level_note": "Trusted: vf/build.py builder/observer, vf/roundtrip.py comparisons, Hypothesis.",
 }
